@@ -229,6 +229,9 @@ def run_model(lines, shards=None, timeout=3000):
         return []
     shards = shards or min(NPROC, max(1, len(lines) // 200))
     chunks = [lines[i::shards] for i in range(shards)]
+    if os.environ.get('VERIF_DUMP_LINES'):
+        with open(os.environ['VERIF_DUMP_LINES'], 'a') as f_:
+            f_.write('\n'.join(lines) + '\n')
     procs = []
     for ch in chunks:
         p = subprocess.Popen([RUNNER], stdin=subprocess.PIPE, stdout=subprocess.PIPE, text=True)
